@@ -61,12 +61,9 @@ mirrors trackpy/masks.py:51 `coords**2` and center_of_mass.py:267 `ndim * np.sum
 def wX2 (radius : List Nat) (i : Nat) (off : List Nat) : Rat :=
   ((radius.length : Int) * (rel (radius.getD i 0) (off.getD i 0) * rel (radius.getD i 0) (off.getD i 0)) : Int)
 
-/-- value of `cosmask` at the centre pixel.  `theta_mask` (masks.py:71) gives the centre
-`theta = atan2(0, 0) = 0`, hence `cos(2·0) = 1`; the REPAIRED `cosmask` (repo-fixes/C09-cosmask-centre.patch,
-masks.py:82-89 `result[radius[0], radius[1]] = 0`) overwrites it with 0: the centre pixel has no
-direction.  Single switch: with the unrepaired masks.py the value is 1, and transposition changes
-`ecc` (`Props/C09.lean: ecc_transpose_witness`, stated for an arbitrary centre weight). -/
-def centreCos : Rat := 0
+/-- value of `cosmask` at the centre pixel.  masks.py:71 gives the centre `theta = atan2(0, 0) = 0`,
+hence `cos(2·0) = 1` TODAY (DESIGN §8, C09 row).  Single switch: a repaired masks.py has 0 here. -/
+def centreCos : Rat := 1
 /-- value of `sinmask` at the centre pixel: `sin(2·atan2(0,0)) = 0`. -/
 def centreSin : Rat := 0
 
